@@ -286,6 +286,7 @@ class State(object):
         self.decisions = []
         self.pc = []
         self.cuts = cuts or {}
+        self.cut_props = set()     # cut keys that stand for properties (getter / setter) no class declares
         self.events = []       # ghost log (calls to abstract things, writes ...)
         self.assumed = []
         self.ctr = itertools.count()
@@ -580,8 +581,11 @@ class Interp(object):
                 # abstract method that exists only as a contract (declared by no class in the MRO)
                 if fr is not None and fr.st is not None and fr.st.cuts and isinstance(obj.cls, ClassV):
                     for k in obj.cls.mro:
-                        cut = fr.st.cuts.get('%s.%s' % (getattr(k, 'qualname', None), name))
+                        key = '%s.%s' % (getattr(k, 'qualname', None), name)
+                        cut = fr.st.cuts.get(key)
                         if cut is not None:
+                            if key in fr.st.cut_props:
+                                return cut(self, fr, obj)
                             return BoundM(Builtin('contract:' + name, lambda I, fr2, a, kw, cut=cut: cut(I, fr2, *a, **kw)), obj)
                 if name == 'args' and 'args' in obj.fields:
                     return obj.fields['args']
@@ -684,6 +688,12 @@ class Interp(object):
                     fv = self.class_entry_value(c2, name + '$set', e2)
                     self.call(fv, [obj, val], {}, fr)
                     return
+                if e is None and fr is not None and fr.st is not None and fr.st.cut_props:
+                    for k in obj.cls.mro:
+                        key = '%s.%s' % (getattr(k, 'qualname', None), name)
+                        if key in fr.st.cut_props and key in fr.st.cuts:
+                            fr.st.cuts[key](self, fr, obj, val)
+                            return
             obj.fields[name] = val
             return
         if hasattr(obj, 'pv_setattr'):
